@@ -105,6 +105,8 @@ func (u *Universe) IP(name string) netip.Addr {
 				return addN(u.Cfg.LanBase, k)
 			case 'x':
 				return addN(u.Cfg.ExtBase, k)
+			case 'q': // IPv4-mapped IPv6 form of a<K>
+				return netip.AddrFrom16(addN(u.Cfg.LanBase, k).As16())
 			case 'l':
 				return netip.AddrFrom16([16]byte{0xfe, 0x80, 0, 0, 0, 0, 0, 0, 0, 0, 0, 0, 0, 0, 0x01, byte(k)})
 			case 'g':
@@ -125,6 +127,14 @@ func (u *Universe) IPName(ip netip.Addr) string {
 	}
 	if ip == u.Cfg.RouterIP {
 		return "routerip"
+	}
+	if ip.Is4In6() {
+		for k := 1; k < 200; k++ {
+			if addN(u.Cfg.LanBase, k) == ip.Unmap() {
+				return "q" + strconv.Itoa(k)
+			}
+		}
+		return "ip:" + ip.String()
 	}
 	if ip.Is4() {
 		for k := 1; k < 200; k++ {
@@ -157,16 +167,28 @@ func (u *Universe) NICInfo() *packet.NICInfo {
 	}
 }
 
+// Names: "noname" is the empty name, n<K> is the concrete name "host-n<K>", n<K>u is the same name in
+// upper case ("HOST-N<K>"): two different names that differ only in letter case.
 func NameOrNone(s string) string {
-	if s == "" {
+	switch {
+	case s == "":
 		return "noname"
+	case strings.HasPrefix(s, "host-"):
+		return s[5:]
+	case strings.HasPrefix(s, "HOST-"):
+		return strings.ToLower(s[5:]) + "u"
 	}
 	return s
 }
 
 func NameValue(s string) string {
-	if s == "noname" {
+	switch {
+	case s == "noname":
 		return ""
+	case len(s) > 1 && s[0] == 'n' && strings.HasSuffix(s, "u"):
+		return "HOST-" + strings.ToUpper(s[:len(s)-1])
+	case len(s) > 1 && s[0] == 'n':
+		return "host-" + s
 	}
 	return s
 }
